@@ -30,7 +30,7 @@ import (
 //   case: rb failed n (isRoute family fam val dlen oif hasPref pref)*
 //   impl: req ok n (6 val dlen index pref)* | req nil e | req panic
 
-type abMsg struct {
+type vfAbMsg struct {
 	isAddr   bool
 	alt      int
 	family   uint8
@@ -42,7 +42,7 @@ type abMsg struct {
 	local    []byte // IFA_LOCAL, when the address has a peer (ip is then the peer's address)
 }
 
-func ipToks(t *vfh.Toks, b []byte) {
+func vfIpToks(t *vfh.Toks, b []byte) {
 	switch len(b) {
 	case 4:
 		t.S("4").S(new(big.Int).SetBytes(b).String())
@@ -53,7 +53,7 @@ func ipToks(t *vfh.Toks, b []byte) {
 	}
 }
 
-func (m abMsg) build(index int) rtnetlink.Message {
+func (m vfAbMsg) build(index int) rtnetlink.Message {
 	if !m.isAddr {
 		if m.alt%2 == 0 {
 			return &rtnetlink.LinkMessage{Index: uint32(index)}
@@ -73,23 +73,23 @@ func (m abMsg) build(index int) rtnetlink.Message {
 	return am
 }
 
-var errExecute = errors.New("verif: netlink request failed")
+var vfErrExecute = errors.New("verif: netlink request failed")
 
-func abRun(out *vfh.Out, k int, failed bool, ms []abMsg) {
+func vfAbRun(out *vfh.Out, k int, failed bool, ms []vfAbMsg) {
 	index := 1 + k%9
 	c := new(vfh.Toks).S("ab").B(failed).N(len(ms))
 	var msgs []rtnetlink.Message
 	for _, m := range ms {
 		c.B(m.isAddr).N(int(m.family)).B(m.hasAttrs)
 		if m.isAddr && m.hasAttrs {
-			ipToks(c, m.ip)
+			vfIpToks(c, m.ip)
 		} else {
 			c.S("0").S("0")
 		}
 		c.N(int(m.plen)).U(uint64(m.flags)).U(uint64(m.valid))
 		c.B(m.isAddr && m.hasAttrs && len(m.local) != 0)
 		if m.isAddr && m.hasAttrs {
-			ipToks(c, m.local)
+			vfIpToks(c, m.local)
 		} else {
 			c.S("0").S("0")
 		}
@@ -102,7 +102,7 @@ func abRun(out *vfh.Out, k int, failed bool, ms []abMsg) {
 			am.PrefixLength == 0 && am.Flags == 0 && am.Scope == 0 &&
 			family == unix.RTM_GETADDR && flags == netlink.Request|netlink.Dump
 		if failed {
-			return msgs, errExecute
+			return msgs, vfErrExecute
 		}
 		return msgs, nil
 	}}
@@ -113,7 +113,7 @@ func abRun(out *vfh.Out, k int, failed bool, ms []abMsg) {
 			}
 		}()
 		ips, err := a.AddressesByIndex(index)
-		if err != nil && !errors.Is(err, errExecute) {
+		if err != nil && !errors.Is(err, vfErrExecute) {
 			return "foreign-error"
 		}
 		if ips == nil {
@@ -132,27 +132,27 @@ func abRun(out *vfh.Out, k int, failed bool, ms []abMsg) {
 	out.Line(c.String(), new(vfh.Toks).B(reqOK).String()+" "+impl)
 }
 
-func ab16(s string) []byte { return []byte(net.ParseIP(s).To16()) }
+func vfAb16(s string) []byte { return []byte(net.ParseIP(s).To16()) }
 
 // the five decoded bits, and every other assigned IFA_F_* bit as noise
-var abBits = []uint32{unix.IFA_F_TEMPORARY, unix.IFA_F_DEPRECATED, unix.IFA_F_TENTATIVE,
+var vfAbBits = []uint32{unix.IFA_F_TEMPORARY, unix.IFA_F_DEPRECATED, unix.IFA_F_TENTATIVE,
 	unix.IFA_F_MANAGETEMPADDR, unix.IFA_F_STABLE_PRIVACY}
-var abNoise = []uint32{unix.IFA_F_NODAD, unix.IFA_F_OPTIMISTIC, unix.IFA_F_DADFAILED, unix.IFA_F_HOMEADDRESS,
+var vfAbNoise = []uint32{unix.IFA_F_NODAD, unix.IFA_F_OPTIMISTIC, unix.IFA_F_DADFAILED, unix.IFA_F_HOMEADDRESS,
 	unix.IFA_F_PERMANENT, unix.IFA_F_NOPREFIXROUTE, unix.IFA_F_MCAUTOJOIN, 1 << 12, 1 << 31}
 
-func abAddrPool() [][]byte {
-	return [][]byte{ab16("2001:db8::1"), ab16("2001:db8:0:1::2"), ab16("fd00::5"), ab16("fd00:0:0:1:211:22ff:fe33:4455"),
-		ab16("fe80::1"), ab16("::1"), ab16("2600::1"), ab16("ff02::1"), ab16("::")}
+func vfAbAddrPool() [][]byte {
+	return [][]byte{vfAb16("2001:db8::1"), vfAb16("2001:db8:0:1::2"), vfAb16("fd00::5"), vfAb16("fd00:0:0:1:211:22ff:fe33:4455"),
+		vfAb16("fe80::1"), vfAb16("::1"), vfAb16("2600::1"), vfAb16("ff02::1"), vfAb16("::")}
 }
 
-func abRandFlags(r *vfh.Rand) uint32 {
+func vfAbRandFlags(r *vfh.Rand) uint32 {
 	var f uint32
-	for _, b := range abBits {
+	for _, b := range vfAbBits {
 		if r.Chance(1, 4) {
 			f |= b
 		}
 	}
-	for _, b := range abNoise {
+	for _, b := range vfAbNoise {
 		if r.Chance(1, 5) {
 			f |= b
 		}
@@ -163,7 +163,7 @@ func abRandFlags(r *vfh.Rand) uint32 {
 	return f
 }
 
-func abRandValid(r *vfh.Rand) uint32 {
+func vfAbRandValid(r *vfh.Rand) uint32 {
 	switch r.Intn(6) {
 	case 0:
 		return 0xffffffff
@@ -176,21 +176,21 @@ func abRandValid(r *vfh.Rand) uint32 {
 	}
 }
 
-func abGood(r *vfh.Rand, pool [][]byte) abMsg {
-	return abMsg{isAddr: true, family: unix.AF_INET6, hasAttrs: true, ip: vfh.Pick(r, pool),
-		plen: uint8(vfh.Pick(r, []int{64, 64, 64, 128, 48, 56, 0, 10, 127})), flags: abRandFlags(r), valid: abRandValid(r)}
+func vfAbGood(r *vfh.Rand, pool [][]byte) vfAbMsg {
+	return vfAbMsg{isAddr: true, family: unix.AF_INET6, hasAttrs: true, ip: vfh.Pick(r, pool),
+		plen: uint8(vfh.Pick(r, []int{64, 64, 64, 128, 48, 56, 0, 10, 127})), flags: vfAbRandFlags(r), valid: vfAbRandValid(r)}
 }
 
 // abPeer: an address with a peer, as the kernel dumps it (IFA_ADDRESS = the peer, IFA_LOCAL = own)
-func abPeer(r *vfh.Rand, pool [][]byte) abMsg {
-	m := abGood(r, pool)
+func vfAbPeer(r *vfh.Rand, pool [][]byte) vfAbMsg {
+	m := vfAbGood(r, pool)
 	m.local = vfh.Pick(r, pool)
 	return m
 }
 
 // abBad returns a message that breaks one invariant.
-func abBad(r *vfh.Rand, pool [][]byte) abMsg {
-	m := abGood(r, pool)
+func vfAbBad(r *vfh.Rand, pool [][]byte) vfAbMsg {
+	m := vfAbGood(r, pool)
 	switch r.Intn(8) {
 	case 0:
 		m.isAddr, m.alt = false, r.Intn(2)
@@ -216,25 +216,25 @@ func abBad(r *vfh.Rand, pool [][]byte) abMsg {
 }
 
 func verifAddresserAddrs(t *testing.T, r *vfh.Rand, out *vfh.Out) {
-	pool := abAddrPool()
+	pool := vfAbAddrPool()
 	k := 0
 	// empty dump, failing request (with and without messages)
-	abRun(out, k, false, nil)
-	abRun(out, k+1, true, nil)
-	abRun(out, k+2, true, []abMsg{{isAddr: true, family: unix.AF_INET6, hasAttrs: true, ip: pool[0], plen: 64}})
-	abRun(out, k+3, true, []abMsg{{isAddr: false}}) // a failing request never inspects the messages
+	vfAbRun(out, k, false, nil)
+	vfAbRun(out, k+1, true, nil)
+	vfAbRun(out, k+2, true, []vfAbMsg{{isAddr: true, family: unix.AF_INET6, hasAttrs: true, ip: pool[0], plen: 64}})
+	vfAbRun(out, k+3, true, []vfAbMsg{{isAddr: false}}) // a failing request never inspects the messages
 	k += 4
 	// every combination of the five decoded bits x noise x the valid-lifetime boundary
 	for f := 0; f < 32; f++ {
 		var w uint32
 		for b := 0; b < 5; b++ {
 			if f&(1<<b) != 0 {
-				w |= abBits[b]
+				w |= vfAbBits[b]
 			}
 		}
 		for _, noise := range []uint32{0, unix.IFA_F_PERMANENT, unix.IFA_F_NODAD | unix.IFA_F_NOPREFIXROUTE, 0xfffff000 &^ unix.IFA_F_STABLE_PRIVACY &^ 0x800} {
 			for _, v := range []uint32{0xffffffff, 0xfffffffe, 3600} {
-				abRun(out, k, false, []abMsg{{isAddr: true, family: unix.AF_INET6, hasAttrs: true, ip: pool[f%len(pool)],
+				vfAbRun(out, k, false, []vfAbMsg{{isAddr: true, family: unix.AF_INET6, hasAttrs: true, ip: pool[f%len(pool)],
 					plen: 64, flags: w | noise, valid: v}})
 				k++
 			}
@@ -242,34 +242,34 @@ func verifAddresserAddrs(t *testing.T, r *vfh.Rand, out *vfh.Out) {
 	}
 	// every single bit of the flag word alone
 	for b := 0; b < 32; b++ {
-		abRun(out, k, false, []abMsg{{isAddr: true, family: unix.AF_INET6, hasAttrs: true, ip: pool[1], plen: 64, flags: 1 << b, valid: 100},
+		vfAbRun(out, k, false, []vfAbMsg{{isAddr: true, family: unix.AF_INET6, hasAttrs: true, ip: pool[1], plen: 64, flags: 1 << b, valid: 100},
 			{isAddr: true, family: unix.AF_INET6, hasAttrs: true, ip: pool[2], plen: 128, flags: ^uint32(1 << b), valid: 0xffffffff}})
 		k++
 	}
 	// every prefix length the kernel can report
 	for pl := 0; pl <= 128; pl++ {
-		abRun(out, k, false, []abMsg{{isAddr: true, family: unix.AF_INET6, hasAttrs: true, ip: pool[pl%len(pool)], plen: uint8(pl)}})
+		vfAbRun(out, k, false, []vfAbMsg{{isAddr: true, family: unix.AF_INET6, hasAttrs: true, ip: pool[pl%len(pool)], plen: uint8(pl)}})
 		k++
 	}
 	// every broken invariant alone, first, last and in the middle of a good dump
 	for i := 0; i < 64; i++ {
-		bad := abBad(r, pool)
-		abRun(out, k, false, []abMsg{bad})
-		abRun(out, k+1, false, []abMsg{bad, abGood(r, pool), abGood(r, pool)})
-		abRun(out, k+2, false, []abMsg{abGood(r, pool), bad, abGood(r, pool)})
-		abRun(out, k+3, false, []abMsg{abGood(r, pool), abGood(r, pool), bad})
+		bad := vfAbBad(r, pool)
+		vfAbRun(out, k, false, []vfAbMsg{bad})
+		vfAbRun(out, k+1, false, []vfAbMsg{bad, vfAbGood(r, pool), vfAbGood(r, pool)})
+		vfAbRun(out, k+2, false, []vfAbMsg{vfAbGood(r, pool), bad, vfAbGood(r, pool)})
+		vfAbRun(out, k+3, false, []vfAbMsg{vfAbGood(r, pool), vfAbGood(r, pool), bad})
 		k += 4
 	}
 	// an address with a peer, alone, first, last and in the middle of a dump; own = peer too
 	for i := 0; i < 16; i++ {
-		p := abPeer(r, pool)
+		p := vfAbPeer(r, pool)
 		if i%4 == 3 {
 			p.local = p.ip
 		}
-		abRun(out, k, false, []abMsg{p})
-		abRun(out, k+1, false, []abMsg{p, abGood(r, pool), abGood(r, pool)})
-		abRun(out, k+2, false, []abMsg{abGood(r, pool), p, abGood(r, pool)})
-		abRun(out, k+3, false, []abMsg{abGood(r, pool), abGood(r, pool), p})
+		vfAbRun(out, k, false, []vfAbMsg{p})
+		vfAbRun(out, k+1, false, []vfAbMsg{p, vfAbGood(r, pool), vfAbGood(r, pool)})
+		vfAbRun(out, k+2, false, []vfAbMsg{vfAbGood(r, pool), p, vfAbGood(r, pool)})
+		vfAbRun(out, k+3, false, []vfAbMsg{vfAbGood(r, pool), vfAbGood(r, pool), p})
 		k += 4
 	}
 	// random dumps: order, duplicates, length
@@ -279,27 +279,27 @@ func verifAddresserAddrs(t *testing.T, r *vfh.Rand, out *vfh.Out) {
 		if r.Chance(1, 10) {
 			ln = r.Intn(48)
 		}
-		ms := make([]abMsg, ln)
+		ms := make([]vfAbMsg, ln)
 		for j := range ms {
-			ms[j] = abGood(r, pool)
+			ms[j] = vfAbGood(r, pool)
 			if j > 0 && r.Chance(1, 6) {
 				ms[j] = ms[r.Intn(j)]
 			}
 		}
 		if r.Chance(1, 10) && ln > 0 {
-			ms[r.Intn(ln)] = abPeer(r, pool)
+			ms[r.Intn(ln)] = vfAbPeer(r, pool)
 		}
 		if r.Chance(1, 12) && ln > 0 {
-			ms[r.Intn(ln)] = abBad(r, pool)
+			ms[r.Intn(ln)] = vfAbBad(r, pool)
 		}
-		abRun(out, k, r.Chance(1, 25), ms)
+		vfAbRun(out, k, r.Chance(1, 25), ms)
 		k++
 	}
 }
 
 // ---------------------------------------------------------------------------------------------
 
-type rbMsg struct {
+type vfRbMsg struct {
 	isRoute bool
 	family  uint8
 	dst     []byte
@@ -308,7 +308,7 @@ type rbMsg struct {
 	pref    *uint8
 }
 
-func (m rbMsg) build() rtnetlink.Message {
+func (m vfRbMsg) build() rtnetlink.Message {
 	if !m.isRoute {
 		return &rtnetlink.AddressMessage{Family: m.family}
 	}
@@ -316,14 +316,14 @@ func (m rbMsg) build() rtnetlink.Message {
 		Attributes: rtnetlink.RouteAttributes{Dst: net.IP(m.dst), OutIface: m.oif, Pref: m.pref, Table: unix.RT_TABLE_MAIN, Priority: 256}}
 }
 
-func rbRun(out *vfh.Out, k int, failed bool, ms []rbMsg) {
+func vfRbRun(out *vfh.Out, k int, failed bool, ms []vfRbMsg) {
 	index := 1 + k%5
 	c := new(vfh.Toks).S("rb").B(failed).N(len(ms))
 	var msgs []rtnetlink.Message
 	for _, m := range ms {
 		c.B(m.isRoute).N(int(m.family))
 		if m.isRoute {
-			ipToks(c, m.dst)
+			vfIpToks(c, m.dst)
 		} else {
 			c.S("0").S("0")
 		}
@@ -343,7 +343,7 @@ func rbRun(out *vfh.Out, k int, failed bool, ms []rbMsg) {
 			rm.Attributes.Table == unix.RT_TABLE_MAIN && rm.Table == 0 && rm.DstLength == 0 && rm.Attributes.Dst == nil &&
 			family == unix.RTM_GETROUTE && flags == netlink.Request|netlink.Dump
 		if failed {
-			return msgs, errExecute
+			return msgs, vfErrExecute
 		}
 		return msgs, nil
 	}}
@@ -354,7 +354,7 @@ func rbRun(out *vfh.Out, k int, failed bool, ms []rbMsg) {
 			}
 		}()
 		rs, err := a.routesByIndex(index)
-		if err != nil && !errors.Is(err, errExecute) {
+		if err != nil && !errors.Is(err, vfErrExecute) {
 			return "foreign-error"
 		}
 		if rs == nil {
@@ -372,9 +372,9 @@ func rbRun(out *vfh.Out, k int, failed bool, ms []rbMsg) {
 	out.Line(c.String(), new(vfh.Toks).B(reqOK).String()+" "+impl)
 }
 
-func rbGood(r *vfh.Rand) rbMsg {
-	dsts := [][]byte{ab16("2001:db8::"), ab16("2001:db8:1::"), ab16("fd00::"), ab16("::"), ab16("fe80::"), ab16("2001:db8::1"), ab16("ff00::")}
-	m := rbMsg{isRoute: true, family: unix.AF_INET6, dst: vfh.Pick(r, dsts),
+func vfRbGood(r *vfh.Rand) vfRbMsg {
+	dsts := [][]byte{vfAb16("2001:db8::"), vfAb16("2001:db8:1::"), vfAb16("fd00::"), vfAb16("::"), vfAb16("fe80::"), vfAb16("2001:db8::1"), vfAb16("ff00::")}
+	m := vfRbMsg{isRoute: true, family: unix.AF_INET6, dst: vfh.Pick(r, dsts),
 		dlen: uint8(vfh.Pick(r, []int{0, 8, 32, 48, 56, 64, 64, 96, 128})), oif: uint32(1 + r.Intn(4))}
 	if r.Chance(1, 2) {
 		p := uint8(vfh.Pick(r, []int{0, 1, 3, 2}))
@@ -383,8 +383,8 @@ func rbGood(r *vfh.Rand) rbMsg {
 	return m
 }
 
-func rbBad(r *vfh.Rand) rbMsg {
-	m := rbGood(r)
+func vfRbBad(r *vfh.Rand) vfRbMsg {
+	m := vfRbGood(r)
 	switch r.Intn(6) {
 	case 0:
 		m.isRoute = false
@@ -407,36 +407,36 @@ func rbBad(r *vfh.Rand) rbMsg {
 
 func verifAddresserRoutes(t *testing.T, r *vfh.Rand, out *vfh.Out) {
 	k := 0
-	rbRun(out, k, false, nil)
-	rbRun(out, k+1, true, nil)
-	rbRun(out, k+2, true, []rbMsg{rbGood(r)})
-	rbRun(out, k+3, true, []rbMsg{{isRoute: false}})
+	vfRbRun(out, k, false, nil)
+	vfRbRun(out, k+1, true, nil)
+	vfRbRun(out, k+2, true, []vfRbMsg{vfRbGood(r)})
+	vfRbRun(out, k+3, true, []vfRbMsg{{isRoute: false}})
 	k += 4
 	for dl := 0; dl <= 128; dl++ {
-		rbRun(out, k, false, []rbMsg{{isRoute: true, family: unix.AF_INET6, dst: ab16("2001:db8::"), dlen: uint8(dl), oif: 1}})
+		vfRbRun(out, k, false, []vfRbMsg{{isRoute: true, family: unix.AF_INET6, dst: vfAb16("2001:db8::"), dlen: uint8(dl), oif: 1}})
 		k++
 	}
 	// the default route as the kernel sends it: destination length 0 and no RTA_DST attribute
 	// (`ip -6 route add unreachable default dev lo`), alone and inside a dump; and the same
 	// missing attribute with a non-zero length (a broken invariant)
-	def := rbMsg{isRoute: true, family: unix.AF_INET6, dst: nil, dlen: 0, oif: 1}
-	g1, g2 := rbMsg{isRoute: true, family: unix.AF_INET6, dst: ab16("fd00::"), dlen: 48, oif: 1}, rbMsg{isRoute: true, family: unix.AF_INET6, dst: ab16("2001:db8:1::"), dlen: 64, oif: 1}
-	for _, ms := range [][]rbMsg{{def}, {def, g1}, {g1, def}, {g1, def, g2}, {def, def}, {{isRoute: true, family: unix.AF_INET6, dst: nil, dlen: 64, oif: 1}}, {g1, {isRoute: true, family: unix.AF_INET6, dst: []byte{}, dlen: 0, oif: 1}}} {
-		rbRun(out, k, false, ms)
+	def := vfRbMsg{isRoute: true, family: unix.AF_INET6, dst: nil, dlen: 0, oif: 1}
+	g1, g2 := vfRbMsg{isRoute: true, family: unix.AF_INET6, dst: vfAb16("fd00::"), dlen: 48, oif: 1}, vfRbMsg{isRoute: true, family: unix.AF_INET6, dst: vfAb16("2001:db8:1::"), dlen: 64, oif: 1}
+	for _, ms := range [][]vfRbMsg{{def}, {def, g1}, {g1, def}, {g1, def, g2}, {def, def}, {{isRoute: true, family: unix.AF_INET6, dst: nil, dlen: 64, oif: 1}}, {g1, {isRoute: true, family: unix.AF_INET6, dst: []byte{}, dlen: 0, oif: 1}}} {
+		vfRbRun(out, k, false, ms)
 		k++
 	}
 	for p := 0; p < 4; p++ {
 		pv := uint8(p)
-		rbRun(out, k, false, []rbMsg{{isRoute: true, family: unix.AF_INET6, dst: ab16("fd00::"), dlen: 48, oif: 1, pref: &pv},
-			{isRoute: true, family: unix.AF_INET6, dst: ab16("fd00:1::"), dlen: 48, oif: 2}})
+		vfRbRun(out, k, false, []vfRbMsg{{isRoute: true, family: unix.AF_INET6, dst: vfAb16("fd00::"), dlen: 48, oif: 1, pref: &pv},
+			{isRoute: true, family: unix.AF_INET6, dst: vfAb16("fd00:1::"), dlen: 48, oif: 2}})
 		k++
 	}
 	for i := 0; i < 48; i++ {
-		bad := rbBad(r)
-		rbRun(out, k, false, []rbMsg{bad})
-		rbRun(out, k+1, false, []rbMsg{bad, rbGood(r)})
-		rbRun(out, k+2, false, []rbMsg{rbGood(r), bad, rbGood(r)})
-		rbRun(out, k+3, false, []rbMsg{rbGood(r), rbGood(r), bad})
+		bad := vfRbBad(r)
+		vfRbRun(out, k, false, []vfRbMsg{bad})
+		vfRbRun(out, k+1, false, []vfRbMsg{bad, vfRbGood(r)})
+		vfRbRun(out, k+2, false, []vfRbMsg{vfRbGood(r), bad, vfRbGood(r)})
+		vfRbRun(out, k+3, false, []vfRbMsg{vfRbGood(r), vfRbGood(r), bad})
 		k += 4
 	}
 	n := vfh.N(3000, 100000)
@@ -445,17 +445,17 @@ func verifAddresserRoutes(t *testing.T, r *vfh.Rand, out *vfh.Out) {
 		if r.Chance(1, 10) {
 			ln = r.Intn(48)
 		}
-		ms := make([]rbMsg, ln)
+		ms := make([]vfRbMsg, ln)
 		for j := range ms {
-			ms[j] = rbGood(r)
+			ms[j] = vfRbGood(r)
 			if j > 0 && r.Chance(1, 6) {
 				ms[j] = ms[r.Intn(j)]
 			}
 		}
 		if r.Chance(1, 12) && ln > 0 {
-			ms[r.Intn(ln)] = rbBad(r)
+			ms[r.Intn(ln)] = vfRbBad(r)
 		}
-		rbRun(out, k, r.Chance(1, 25), ms)
+		vfRbRun(out, k, r.Chance(1, 25), ms)
 		k++
 	}
 }
